@@ -486,13 +486,21 @@ def run(prop, tier, seed):
                         break
                 selftest["store_value_corrupted_rejected"] = not validate_detail(c1, reqs, wd, name="SignerTraceSelf1")[0]
                 selftest["lock_event_removed_rejected"] = not validate_detail(c2, reqs, wd, name="SignerTraceSelf2")[0]
-                pa, pb, _ = next((x for x in index if any(l_["ev"] == "Respond" and "SUCCEEDED" in l_["res"] for l_ in lines[x[0] - 1:x[1]])), index[0])
-                c3 = [json.loads(json.dumps(x)) for x in lines[pa - 1:pb]]
-                for x in c3:
-                    if x["ev"] == "Respond" and "SUCCEEDED" in x["res"]:
-                        x["res"][x["res"].index("SUCCEEDED")] = "DENIED"
+                # a response flipped from SUCCEEDED to DENIED: not every such flip is observable (a later, higher update of the same key
+                # can hide it - the flipped history is then still linearizable), so candidates are tried until one is rejected; a trace
+                # specification that constrains nothing rejects none of them
+                cands = [x for x in index if any(l_["ev"] == "Respond" and "SUCCEEDED" in l_["res"] for l_ in lines[x[0] - 1:x[1]])][:12]
+                flipped = False
+                for pa, pb, _ in cands:
+                    c3 = [json.loads(json.dumps(x)) for x in lines[pa - 1:pb]]
+                    for x in c3:
+                        if x["ev"] == "Respond" and "SUCCEEDED" in x["res"]:
+                            x["res"][x["res"].index("SUCCEEDED")] = "DENIED"
+                            break
+                    if not validate(c3, wd, name="AtomicTraceSelf")[0]:
+                        flipped = True
                         break
-                selftest["response_flipped_rejected_by_AtomicTrace"] = not validate(c3, wd, name="AtomicTraceSelf")[0]
+                selftest["response_flipped_rejected_by_AtomicTrace"] = flipped
                 if not all(selftest.values()):
                     raise Inconclusive("binding self-test failed: a corrupted trace was accepted (%s)" % selftest)
             # the repository's own tests (soak tests included) as trace sources: StoreTrace (AtomicRMW, ReadLatest, Monotone), DRIFT only
